@@ -12,7 +12,7 @@ CONSTANTS
   Types = {2}
   PTypes = {1}
   Layouts = {1, 4, 6}
-  Pads = {0, 8}
+  Pads = {0}
   Kinds = {"bits", "nobits", "plain"}
   SymChoices = {TRUE, FALSE}
 INIT Init
